@@ -125,7 +125,7 @@ theorem sp_primal_sound (Q : CType → List ℝ → Prop) (inp : PrimalIn) (hwf 
       (∀ j, j < inp.alpha.length →
         (inp.ids.map fun p => ageVal σ inp.alpha.length inp.c inp.ech p j).sum ≤ cVal σ inp.c j) ∧
       (inp.settings.sumAgeForceEquality = true →
-        ∀ j, j < inp.alpha.length →
+        ∀ j, j < inp.alpha.length → reachedB inp.ech j = true →
           (inp.ids.map fun p => ageVal σ inp.alpha.length inp.c inp.ech p j).sum = cVal σ inp.c j) ∧
       (∀ p ∈ inp.ids, ∀ j, j < inp.alpha.length → j ≠ p.i → 0 ≤ ageVal σ inp.alpha.length inp.c inp.ech p j) ∧
       (∀ p ∈ inp.ids, ∀ x, InDom Q inp.X inp.n x →
@@ -198,9 +198,9 @@ theorem sp_primal_sound (Q : CType → List ℝ → Prop) (inp : PrimalIn) (hwf 
         rw [h2]
         exact mul_le_mul_of_nonneg_right (hle j (Finset.mem_range.1 hj)) (Real.exp_pos _).le
       refine ⟨fun _ => ⟨hle, ?_, fun p hp => (hper p hp).1, ?_⟩, hiv⟩
-      · intro hfe j hj
+      · intro hfe j hj hr
         have := hsum j hj
-        rw [hmap, hfe] at this
+        rw [hmap, hfe, hr] at this
         simpa using this
       · intro p hp x hx
         rw [sp_sigVal_range]
